@@ -5,7 +5,9 @@ Written from /repo: `WaitGroup::{Add, Done, InsertRange<NeedMove, NeedAdd = true
 (include/yaclib/algo/wait_group.hpp), `OneShotEvent::{TryAdd, Ready, Wait, TimedWait, Set}` + `SetImpl`
 (algo/one_shot_event.hpp, src/algo/one_shot_event.cpp), `Waiter::Call`, `TimedWaiter::Call`, the awaiters,
 `AtomicCounter::{Add, Sub, SubEqual}` + `SetDeleter`, `CallCallback::Impl`, `DropCallback::Impl`
-(algo/detail/wait_event.hpp), `BaseCore::{SetCallbackImpl<false>, SetResultImpl<·,false>, Empty}`, `MutexEvent`.
+(algo/detail/wait_event.hpp), `BaseCore::{SetCallbackImpl<false>, SetResultImpl<·,false>, Ready}`, `FutureBase::Ready`,
+`MutexEvent`.  (`Ready()` is `word == kResult` since the fix of defect D3, /repo commit c9c07bc; before it was
+`word != kEmpty`, which is true as soon as `Attach` has registered its callback.)
 
 State: the counter, the event's list head (`some l` = registered waiter jobs, newest first; `none` = all-done sentinel),
 any number of threads each running a program of operations, futures (one hand-off word each), waiter jobs (allocated
@@ -18,7 +20,7 @@ Thread-local code between two such operations is folded into the following step.
 The documented rule "Add is only called while the count is non-zero" is expressed by a token discipline on the
 workload (`Workload.ok`, decidable): every thread starts with some of the initial count's units; it may `Add` only
 while it holds a unit, `Done(k)` only units it holds (k ≥ 1), and `Attach`/`Consume` hand one unit per registered
-future to that future's callback.  `held` / `tok` are ghost fields.
+future to that future's callback.  `held` / `toks` are ghost fields.
 -/
 namespace Yaclib.Event
 
@@ -28,9 +30,9 @@ inductive FWord where
 
 structure Fut where
   word : FWord := .empty
-  tok : Bool := false          -- ghost: a unit of the count travels with this future's callback
   completed : Bool := false    -- ghost: the producer has exchanged
   nfree : Nat := 0             -- ghost: how often the WaitGroup machinery released the (consumed) core
+  ncon : Nat := 0              -- ghost: how often a `Consume` of this future was decided (registered or found ready)
   deriving DecidableEq, Repr
 
 inductive WKind where
@@ -54,6 +56,8 @@ structure Job where
   ready : Bool := false        -- MutexEvent::_is_ready
   holder : Option Nat := none  -- thread holding MutexEvent::_m
   refs : Int := 0              -- TimedWaiter reference count
+  oref : Bool := false         -- ghost: the owner (the thread inside WaitFor) still holds its reference
+  odone : Bool := false        -- ghost: the owner's wait operation is over (returned / resumed / suspended)
   freed : Bool := false        -- the object is gone (stack waiter left scope / heap waiter deleted)
   nrel : Nat := 0              -- ghost: releases (Wait returned / WaitFor returned true / coroutine resumed)
   nfree : Nat := 0             -- ghost: deletes of the heap waiter
@@ -128,9 +132,12 @@ structure State where
   job : Nat → Job
   njobs : Nat
   -- ghost
+  toks : List Nat               -- futures whose callback carries a unit of the count (registered, not yet decremented)
   zeroed : Bool                 -- some decrement has reached zero
   nzero : Nat                   -- how many did
+  zeroer : Option Nat           -- the thread whose decrement reached zero
   crash : Bool                  -- SetImpl found the sentinel already in the head (it would dereference it)
+  dfulfil : Bool                -- a promise was fulfilled twice (outside every contract)
   bad : Bool                    -- a waiter object was accessed after it was freed / left scope
   readyObs : List (Nat × Bool × Bool)   -- Ready() reports: (future, reported, completed at the load)
 
@@ -142,7 +149,7 @@ def init (w : Workload) : State :=
   { w := w, count := (sumTo w.held0 w.nthr : Nat), head := some [],
     thr := fun t => if t < w.nthr then { prog := w.prog t, pc := .idle, held := w.held0 t } else {},
     fut := fun _ => {}, job := fun _ => {}, njobs := 0,
-    zeroed := false, nzero := 0, crash := false, bad := false, readyObs := [] }
+    toks := [], zeroed := false, nzero := 0, zeroer := none, crash := false, dfulfil := false, bad := false, readyObs := [] }
 
 inductive Label where
   | fadd (t k : Nat) (old : Int)            -- count.fetch_add(k, relaxed) → old
@@ -198,7 +205,7 @@ def doSub (s : State) (t k : Nat) (heldDelta : Nat) : State :=
   let s1 := { s with count := s.count - (k : Int) }
   let th := { s.thr t with held := (s.thr t).held - heldDelta }
   if s.count = (k : Int) then
-    { s1 with thr := updT s.thr t { th with pc := .xchgHead }, zeroed := true, nzero := s.nzero + 1 }
+    { s1 with thr := updT s.thr t { th with pc := .xchgHead }, zeroed := true, nzero := s.nzero + 1, zeroer := some t }
   else { s1 with thr := updT s.thr t { th with prog := th.prog.tail, pc := .idle } }
 
 def doAdd (s : State) (t k : Nat) : State :=
@@ -217,14 +224,17 @@ def insNext (s : State) (t : Nat) (rest : List Nat) (c wc : Nat) (consume : Bool
 
 /-- registration failed (the result is there): a consumed core is released right away -/
 def insFail (s : State) (t f : Nat) (rest : List Nat) (c wc : Nat) (consume : Bool) : State :=
-  let s1 := if consume then { s with fut := updF s.fut f { s.fut f with nfree := (s.fut f).nfree + 1 } } else s
+  let s1 := if consume then
+      { s with fut := updF s.fut f { s.fut f with nfree := (s.fut f).nfree + 1, ncon := (s.fut f).ncon + 1 } } else s
   insNext s1 t rest c wc consume
 
 def doInsLoad (s : State) (t f : Nat) (rest : List Nat) (c wc : Nat) (consume : Bool) (x : FWord) : State :=
   if x = .empty then goto s t (.insCas f rest c wc consume) else insFail s t f rest c wc consume
 
 def doInsCasOk (s : State) (t f : Nat) (rest : List Nat) (c wc : Nat) (consume : Bool) : State :=
-  insNext { s with fut := updF s.fut f { s.fut f with word := if consume then .drop else .call, tok := true },
+  insNext { s with fut := updF s.fut f { s.fut f with word := if consume then .drop else .call,
+                                                        ncon := if consume then (s.fut f).ncon + 1 else (s.fut f).ncon },
+                   toks := f :: s.toks,
                    thr := updT s.thr t { s.thr t with held := (s.thr t).held - 1 } } t rest c (wc + 1) consume
 
 /-- `SetResultImpl<·,false>`: a callback that was there is run by the producer: `CallCallback::Impl` = `Sub(1)`,
@@ -235,10 +245,10 @@ def doFulfil (s : State) (t f : Nat) : State :=
   | .call => goto { s with fut := updF s.fut f { fu with word := .result, completed := true } } t .cbSub
   | .drop => goto { s with fut := updF s.fut f { fu with word := .result, completed := true, nfree := fu.nfree + 1 } } t .cbSub
   | .empty => finish { s with fut := updF s.fut f { fu with word := .result, completed := true } } t
-  | .result => finish { s with crash := true } t    -- a second Set on the same promise: outside every contract
+  | .result => finish { s with dfulfil := true } t    -- a second Set on the same promise: outside every contract
 
 def doCbSub (s : State) (t f : Nat) : State :=
-  doSub { s with fut := updF s.fut f { s.fut f with tok := false } } t 1 0
+  doSub { s with toks := s.toks.erase f } t 1 0
 
 /-- SetImpl: `exchange(allDone)`, then call every job of the list that was there -/
 def runNext (s : State) (t : Nat) (rest : List Nat) : State :=
@@ -288,14 +298,16 @@ def opChecks : Op → Bool
 
 /-- a wait operation starts: its waiter object comes into being -/
 def newJob (s : State) (t : Nat) (k : WKind) : Job :=
-  { kind := k, owner := t, slot := (s.thr t).prog.length, st := .fresh, refs := if k = .timed then 2 else 0 }
+  { kind := k, owner := t, slot := (s.thr t).prog.length, st := .fresh, refs := if k = .timed then 2 else 0,
+    oref := decide (k = .timed) }
 
 /-- `TryAdd` returned false / `Ready()` was true -/
 def notAdded (s : State) (t j : Nat) : State :=
   let jb := s.job j
   match jb.kind with
   | .blocking => goto { s with job := updJ s.job j { jb with st := .failed, freed := true } } t (.rep j true)
-  | .timed => goto { s with job := updJ s.job j { jb with st := .failed, freed := true, nfree := jb.nfree + 1 } } t (.rep j true)
+  | .timed =>
+      goto { s with job := updJ s.job j { jb with st := .failed, freed := true, oref := false, nfree := jb.nfree + 1 } } t (.rep j true)
   | .coro => goto { s with job := updJ s.job j { jb with st := .failed } } t (.resume j)
 
 /-- the TryAdd loop with `expected = x` -/
@@ -310,7 +322,8 @@ def doStartLoad (s : State) (t : Nat) (k : WKind) (chk : Bool) (x : Exp) : State
 def doPushed (s : State) (t j : Nat) (l : List Nat) : State :=
   let s1 := { s with head := some (j :: l), job := updJ s.job j { s.job j with st := .listed } }
   match (s.job j).kind with
-  | .coro => finish s1 t           -- suspended: control returns to the coroutine's caller
+  | .coro =>                       -- suspended: control returns to the coroutine's caller
+      finish { s1 with job := updJ s1.job j { s1.job j with odone := true } } t
   | _ => goto s1 t (.bLock j)
 
 def doBLock (s : State) (t j : Nat) (timedOut : Bool) : State :=
@@ -331,13 +344,13 @@ def doBUnlockRet (s : State) (t j : Nat) (b : Bool) : State :=
   | _ => goto { s1 with job := updJ s.job j { jb with holder := none, freed := true } } t (.rep j b)
 
 def doBDec (s : State) (t j : Nat) (b : Bool) : State :=
-  goto { s with job := updJ s.job j (decJob (s.job j)), bad := touch s j } t (.rep j b)
+  goto { s with job := updJ s.job j { decJob (s.job j) with oref := false }, bad := touch s j } t (.rep j b)
 
 def doRep (s : State) (t j : Nat) (b : Bool) : State :=
-  finish (if b then { s with job := updJ s.job j { s.job j with nrel := (s.job j).nrel + 1 } } else s) t
+  finish { s with job := updJ s.job j { s.job j with odone := true, nrel := if b then (s.job j).nrel + 1 else (s.job j).nrel } } t
 
 def doResume (s : State) (t j : Nat) : State :=
-  finish { s with job := updJ s.job j { s.job j with nrel := (s.job j).nrel + 1 } } t
+  finish { s with job := updJ s.job j { s.job j with odone := true, nrel := (s.job j).nrel + 1 } } t
 
 inductive Step : State → Label → State → Prop where
   | tAdd (s : State) (t k : Nat) (rest : List Op) (h : (s.thr t).pc = .idle) (hp : (s.thr t).prog = .add k :: rest) :
@@ -362,7 +375,7 @@ inductive Step : State → Label → State → Prop where
   | tCbSub (s : State) (t f : Nat) (rest : List Op) (h : (s.thr t).pc = .cbSub) (hp : (s.thr t).prog = .fulfil f :: rest) :
       Step s (.fsub t 1 s.count) (doCbSub s t f)
   | tReadyLoad (s : State) (t f : Nat) (rest : List Op) (h : (s.thr t).pc = .idle) (hp : (s.thr t).prog = .ready f :: rest) :
-      Step s (.fLoad t f (s.fut f).word) (goto s t (.rdy f (decide ((s.fut f).word ≠ .empty)) (s.fut f).completed))
+      Step s (.fLoad t f (s.fut f).word) (goto s t (.rdy f (decide ((s.fut f).word = .result)) (s.fut f).completed))
   | tReady (s : State) (t f : Nat) (b c : Bool) (h : (s.thr t).pc = .rdy f b c) :
       Step s (.rdy t f b) (finish { s with readyObs := s.readyObs ++ [(f, b, c)] } t)
   /-- SetImpl -/
@@ -429,7 +442,7 @@ def next (s : State) : Label → Option State
           if f' = f ∧ fLoadOk (s.fut f) x then some (doInsLoad s t f rest c wc consume x) else none
       | .idle, .ready f' :: _ =>
           if f' = f ∧ x = (s.fut f).word then
-            some (goto s t (.rdy f (decide ((s.fut f).word ≠ .empty)) (s.fut f).completed))
+            some (goto s t (.rdy f (decide ((s.fut f).word = .result)) (s.fut f).completed))
           else none
       | _, _ => none
   | .fCas t f ok =>
